@@ -849,7 +849,8 @@ func fieldMarchCase(c *run.Ctx) run.Result {
 func Spec() *run.Spec {
 	return &run.Spec{
 		ID: "C09", Level: "exploration",
-		Rule: "analytic: unions of 1-4 spheres/boxes/capsules (features >= 2.5 cells after the threshold shrink) built with sdf.Union in one field or with marching.Sphere/Box/Line + CombineFields, resolution 1.5-12 cubes per unit, " +
+		Rule: "Since rounds 7-8: a diagonal family in the boundary phase (the same extreme at the same offset on two or three axes at once) and weak / strong fields (a fifth of the union-field scenes multiply every strength and the threshold by 1e-3...1e-8 or 1e3; the near-tie band scales with the field). " +
+			"analytic: unions of 1-4 spheres/boxes/capsules (features >= 2.5 cells after the threshold shrink) built with sdf.Union in one field or with marching.Sphere/Box/Line + CombineFields, resolution 1.5-12 cubes per unit, " +
 			"thresholds {0,-0.05,-0.2}, centred at random inside a block or within 3 cells of a block face/edge/corner (block coordinates -2..1), box faces aligned with the first/last sample layer of a block, every 12th case a capsule of 205-330 cells; " +
 			"lattice: random 8..16^3 tables (|v| in [0.3,1], positive hull) laid across block corners/edges/faces. A case is non-trivial when the sampled lattice has >= 8 distinct cube configurations and at least one surface cell in the last layer of a block " +
 			"(its corners come from a neighbouring block); distinctness = builder, entry point, shape kinds, resolution bucket, threshold, boundary axes, blocks with surface, sign of block coordinates, configuration-count bucket.",
